@@ -375,7 +375,7 @@ def _dereify_agenda(g: Graph, model: Model) -> _Dereification:
                     )
                 epidata.extend(
                     epi
-                    for epi in g.epidata[second]
+                    for epi in g.epidata.get(second, [])
                     if not isinstance(epi, RoleAlignment)
                 )
                 agenda[var] = (first, dereified, epidata)
